@@ -3,6 +3,7 @@ package main
 // Static effect obligations:
 //   effect no <E> in loop <N> [except <callee>,...]
 //   effect no <E> before <callee>
+//   effect no lock-held at <callee>
 // An effect (awaits-task, may-block) is declared on contracts / libspec entries
 // and inherited through inlined callees. Channel operations have may-block.
 
@@ -189,6 +190,13 @@ func (s *Session) checkEffects() {
 					check(in)
 				}
 			}
+		case "at":
+			// no lock-held at C: on no path is a sync.(RW)Mutex locked by this function's own
+			// instructions still held when C is called (a deferred Unlock releases at exit only)
+			if eff != "lock-held" {
+				fatalf("%s: bad effect clause %q", s.name, e)
+			}
+			offenders = s.locksHeldAt(f[3], e)
 		default:
 			fatalf("%s: bad effect clause %q", s.name, e)
 		}
@@ -202,4 +210,109 @@ func (s *Session) checkEffects() {
 		}
 		s.vcs = append(s.vcs, vc)
 	}
+}
+
+// lockKey names the mutex a Lock/Unlock call operates on, structurally (field path from a
+// parameter, free variable or global), so that the Lock and the Unlock of one mutex agree.
+func lockKey(v ssa.Value) string {
+	switch x := v.(type) {
+	case *ssa.FieldAddr:
+		return lockKey(x.X) + "." + strconv.Itoa(x.Field)
+	case *ssa.Field:
+		return lockKey(x.X) + "." + strconv.Itoa(x.Field)
+	case *ssa.UnOp:
+		return "*" + lockKey(x.X)
+	case *ssa.Parameter:
+		return "param:" + x.Name()
+	case *ssa.FreeVar:
+		return "free:" + x.Name()
+	case *ssa.Global:
+		return "global:" + x.String()
+	case *ssa.Alloc:
+		return "local:" + x.Comment
+	}
+	return "value:" + v.Name()
+}
+
+func lockOp(c *ssa.CallCommon) (key string, acquire, release bool) {
+	callee := c.StaticCallee()
+	if callee == nil || callee.Pkg == nil || callee.Pkg.Pkg.Path() != "sync" || len(c.Args) == 0 {
+		return
+	}
+	recv := callee.Signature.Recv()
+	if recv == nil {
+		return
+	}
+	rt := recv.Type().String()
+	if !strings.HasSuffix(rt, "sync.Mutex") && !strings.HasSuffix(rt, "sync.RWMutex") {
+		return
+	}
+	switch callee.Name() {
+	case "Lock", "RLock":
+		return lockKey(c.Args[0]), true, false
+	case "Unlock", "RUnlock":
+		return lockKey(c.Args[0]), false, true
+	}
+	return
+}
+
+func (s *Session) locksHeldAt(target, clause string) []string {
+	in := map[*ssa.BasicBlock]map[string]string{}
+	var offenders []string
+	seen := map[string]bool{}
+	found := false
+	transfer := func(b *ssa.BasicBlock, held map[string]string, report bool) map[string]string {
+		out := map[string]string{}
+		for k, v := range held {
+			out[k] = v
+		}
+		for _, i := range b.Instrs {
+			c, ok := i.(*ssa.Call)
+			if !ok {
+				continue
+			}
+			if k, acq, rel := lockOp(&c.Call); acq {
+				out[k] = s.P.pos(i.Pos())
+			} else if rel {
+				delete(out, k)
+			}
+			if relSuffix(s.calleeName(&c.Call)) == target {
+				found = true
+				if report {
+					for k, where := range out {
+						m := fmt.Sprintf("mutex %s locked at %s is held across the call of %s at %s", k, where, target, s.P.pos(i.Pos()))
+						if !seen[m] {
+							seen[m] = true
+							offenders = append(offenders, m)
+						}
+					}
+				}
+			}
+		}
+		return out
+	}
+	for changed := true; changed; {
+		changed = false
+		for _, b := range s.fn.Blocks {
+			out := transfer(b, in[b], false)
+			for _, succ := range b.Succs {
+				if in[succ] == nil {
+					in[succ] = map[string]string{}
+				}
+				for k, v := range out {
+					if _, ok := in[succ][k]; !ok {
+						in[succ][k] = v
+						changed = true
+					}
+				}
+			}
+		}
+	}
+	for _, b := range s.fn.Blocks {
+		transfer(b, in[b], true)
+	}
+	if !found {
+		fatalf("%s: effect clause %q: no call of %s", s.name, clause, target)
+	}
+	return offenders
 }
